@@ -1,7 +1,7 @@
 /-
   XotModel.Model.FinvSpec — histories for C04: the mutating calls as data (`Op`), one step of the
   store (`Forest.step`), and which calls the full preservation theorem of `Props/C04` covers
-  (`Op.core`).  Arguments are arbitrary numbers: a call on a handle that is not live is part of a
+  (`Op.core`: every call).  Arguments are arbitrary numbers: a call on a handle that is not live is part of a
   history like any other.
 -/
 import XotModel.Model.ForestInv
@@ -45,9 +45,9 @@ inductive Op where
   | elementUnwrap (node : Nat)
   | cloneNode (node : Nat)
 
-/-- The calls for which `Props/C04` proves preservation of the whole invariant. -/
+/-- The calls for which `Props/C04` proves preservation of the whole invariant: all of them (the
+    predicate is kept so that the statements of `C04_step` / `C04_reach` stay as they were). -/
 def Op.core : Op → Bool
-  | .replace _ _ | .cloneNode _ => false
   | _ => true
 
 namespace Forest
